@@ -197,3 +197,111 @@ func (e *Explorer) explore(prefix []int) {
 		}
 	}
 }
+
+// PileUps runs, for every scheduling-point label that occurs in a default run of the
+// harness, the schedules in which EVERY thread is first driven to that point (each thread
+// runs alone until the operation it is about to perform carries the label) and only then
+// are they released - one after the other to completion (ascending and descending thread
+// order) and in lock step.  This reaches k-way pile-ups (k = number of threads) at every
+// point of the code, which a preemption bound below k-1 cannot reach; it is an exhaustive
+// enumeration over (label, release order), not over interleavings.
+func (e *Explorer) PileUps() *Result {
+	res := &Result{Outcomes: map[string]int64{}, Traces: map[string]struct{}{}}
+	e.res = res
+	e.sigSeen = map[string]bool{}
+	// labels of a default (non-preemptive) run
+	h0 := e.NewHarness()
+	r0 := sched.Run(nil, e.Horizon, h0.Body)
+	_, _ = h0.Finish(r0)
+	seen := map[string]bool{}
+	var labels []string
+	for _, st := range r0.Steps {
+		if !seen[st.Op] {
+			seen[st.Op] = true
+			labels = append(labels, st.Op)
+		}
+	}
+	for _, label := range labels {
+		for _, release := range []string{"ascending", "descending", "lockstep"} {
+			h := e.NewHarness()
+			arrived := map[int]bool{}
+			phase2 := false
+			rr := -1
+			strat := func(en []sched.Pending) int {
+				if !phase2 {
+					// drive the lowest-id thread that has not arrived yet
+					best := -1
+					for i, p := range en {
+						if arrived[p.ID] {
+							continue
+						}
+						if p.Op == label {
+							arrived[p.ID] = true
+							continue
+						}
+						if best < 0 || p.ID < en[best].ID {
+							best = i
+						}
+					}
+					if best >= 0 {
+						return best
+					}
+					phase2 = true
+				}
+				switch release {
+				case "ascending":
+					best := 0
+					for i, p := range en {
+						if p.ID < en[best].ID {
+							best = i
+						}
+					}
+					return best
+				case "descending":
+					best := 0
+					for i, p := range en {
+						if p.ID > en[best].ID {
+							best = i
+						}
+					}
+					return best
+				default:
+					// lock step: the enabled thread with the smallest id greater than the last one run
+					best, wrap := -1, 0
+					for i, p := range en {
+						if p.ID > rr && (best < 0 || p.ID < en[best].ID) {
+							best = i
+						}
+						if p.ID < en[wrap].ID {
+							wrap = i
+						}
+					}
+					if best < 0 {
+						best = wrap
+					}
+					rr = en[best].ID
+					return best
+				}
+			}
+			r := sched.RunWith(e.Horizon, h.Body, strat)
+			obs, f := h.Finish(r)
+			res.Executions++
+			res.Outcomes[obs]++
+			if r.Deadlock {
+				f = append(f, Finding{Sig: "deadlock", What: "deadlock in the pile-up schedule at " + label + " (" + release + " release): " + r.DeadlockMsg})
+			}
+			if r.Panic != nil {
+				f = append(f, Finding{Sig: "panic", What: fmt.Sprintf("panic in the pile-up schedule at %s (%s release): %v", label, release, r.Panic)})
+			}
+			for _, x := range f {
+				if !e.sigSeen[x.Sig] {
+					e.sigSeen[x.Sig] = true
+					x.What += fmt.Sprintf(" | pile-up schedule: every thread driven to %q, then released %s", label, release)
+					res.Findings = append(res.Findings, Found{Finding: x})
+				}
+			}
+		}
+	}
+	res.Exhausted = true
+	return res
+}
